@@ -44,7 +44,7 @@ import common
 from common import InfraError, Timer, load_known_findings, match_known, write_evidence, write_replay
 import tables_c18 as tb
 from gen import BANDWIDTHS, CLOCKS, MIN_DURS, HistoryGen, gen_channel, gen_device, gen_eom
-from realcode import Dev, RealSeq, make_channel
+from realcode import Dev, RealSeq, doc_is_detuned_delay, doc_phase_jump_time, doc_rise_time, make_channel
 from seqcheck import Fail
 from monitors import within_limits
 
@@ -116,6 +116,24 @@ def mk_channel(c: dict):
     if c.get("propagation_dir") is not None:
         obj = dataclasses.replace(obj, propagation_dir=tuple(c["propagation_dir"]))
     return obj
+
+
+def _canon_spec(spec: dict) -> str:
+    """A device spec with the defaults written out (two specs that build the same device compare equal)."""
+    s = copy.deepcopy(spec)
+    s.setdefault("dmms", [])
+    s["ids"] = list(s.get("ids") or [f"ch{i}" for i in range(len(s["channels"]))])
+    for k, d in (("reusable", False), ("max_seq", None), ("rydberg_level", 60), ("name", "VerifDevice")):
+        s.setdefault(k, d)
+    for c in s["channels"] + s["dmms"]:
+        for f, d in CH_DEFAULTS.items():
+            c.setdefault(f, d)
+        if c.get("eom"):
+            for f, d in EOM_DEFAULTS.items():
+                c["eom"].setdefault(f, d)
+        else:
+            c.pop("eom", None)
+    return json.dumps(s, sort_keys=True, default=str)
 
 
 def apply_edits(spec: dict, edits: list) -> dict:
@@ -531,8 +549,8 @@ def matched_diffs(old_dev: Dev, old, new_dev: Dev, new) -> list:
         o0, o1 = s0.channel_obj, s1.channel_obj
         for f, dflt in CH_DEFAULTS.items():
             v0, v1 = c0.get(f, dflt), c1.get(f, dflt)
-            if f == "custom_phase_jump_time" and o0.phase_jump_time == o1.phase_jump_time:
-                continue   # (only the effective phase_jump_time is read)
+            if f == "custom_phase_jump_time" and doc_phase_jump_time(o0) == doc_phase_jump_time(o1):
+                continue   # (only the effective phase-jump time is read; documented formula, not the property)
             if v0 != v1 and not (f == "propagation_dir" and (v0 is None) == (v1 is None) and list(v0 or []) == list(v1 or [])):
                 out.append(((k1, j, f, v0), f))
         if k0 == "ch" and n0 in active:   # (the EOM configuration of a channel that never enables it is not read)
@@ -542,7 +560,7 @@ def matched_diffs(old_dev: Dev, old, new_dev: Dev, new) -> list:
             elif e0 and e1:
                 for f in sorted(set(e0) | set(e1)):
                     v0, v1 = e0.get(f, EOM_DEFAULTS.get(f)), e1.get(f, EOM_DEFAULTS.get(f))
-                    if f == "custom_buffer_time" and o0._eom_buffer_time == o1._eom_buffer_time \
+                    if f == "custom_buffer_time" and doc_eom_buffer_time(o0) == doc_eom_buffer_time(o1) \
                             and bool(v0) == bool(v1):
                         continue   # (only the effective buffer time and its truth value are read)
                     if v0 != v1:
@@ -562,9 +580,31 @@ EOM_OPTION_PARAMS = {"eom_config." + x for x in (
     "blue_shift_coeff", "red_shift_coeff")}
 
 
+def doc_eom_buffer_time(obj) -> int:
+    """Documented EOM buffer: the custom buffer time when one is given, else twice the channel's rise time
+    (from the public attributes, not the private Channel._eom_buffer_time)."""
+    return int(obj.eom_config.custom_buffer_time or 2 * doc_rise_time(obj))
+
+
+def raw_render(sch):
+    """Unmodulated amplitude / detuning of one channel painted from its instruction list with numpy (pulse
+    samples added over [ti, tf)), and the (ti, tf, phase) of every pulse that is not a detuned delay --
+    computed here, not with `_ChannelSchedule.get_samples` that the implementation's own check calls."""
+    n = max((int(s.tf) for s in sch.slots), default=0)
+    amp, det, ph = np.zeros(n), np.zeros(n), []
+    for s in sch.slots:
+        if isinstance(s.type, Pulse):
+            amp[int(s.ti):int(s.tf)] += _arr(s.type.amplitude.samples.as_array(detach=True))
+            det[int(s.ti):int(s.tf)] += _arr(s.type.detuning.samples.as_array(detach=True))
+            if not doc_is_detuned_delay(s.type):
+                ph.append((int(s.ti), int(s.tf), float(s.type.phase)))
+    return amp, det, ph
+
+
 def eom_samples_close(old, new) -> bool:
-    """The code's own post-replay criterion, re-evaluated independently: the unmodulated samples of
-    every channel that enables the EOM mode are `np.isclose`."""
+    """The criterion of the code's post-replay check, evaluated independently: for every channel that
+    enables the EOM mode the unmodulated amplitude and detuning (painted by `raw_render`) are `np.isclose`,
+    and the pulses carry close phases over the same intervals."""
     names = []
     for c in list(old._calls[1:]) + list(old._to_build_calls):
         if c.name == "enable_eom_mode":
@@ -572,10 +612,15 @@ def eom_samples_close(old, new) -> bool:
     for n in names:
         if n not in old._schedule or n not in new._schedule:
             return False
-        a, b = old._schedule[n].get_samples(), new._schedule[n].get_samples()
-        for f in ("amp", "det", "phase"):
-            x, y = np.asarray(getattr(a, f), dtype=float), np.asarray(getattr(b, f), dtype=float)
-            if x.shape != y.shape or not np.all(np.isclose(x, y)):
+        a0, d0, p0 = raw_render(old._schedule[n])
+        a1, d1, p1 = raw_render(new._schedule[n])
+        if a0.shape != a1.shape or not (np.all(np.isclose(a0, a1)) and np.all(np.isclose(d0, d1))):
+            return False
+        if [(x[0], x[1]) for x in p0] != [(x[0], x[1]) for x in p1]:
+            return False
+        for x, y in zip(p0, p1):
+            dlt = abs(x[2] - y[2]) % (2 * np.pi)
+            if min(dlt, 2 * np.pi - dlt) > 1e-5 * max(1.0, abs(y[2])) + 1e-8:
                 return False
     return True
 
@@ -652,7 +697,7 @@ def model_matching(rs: RealSeq, nd: Dev, strict: bool):
                       for n, sch in seq._schedule.items())
     chans = " ; ".join(nd.cfg_wire(o, False) for o in nd.chan_objs)
     dmms = " ; ".join(nd.cfg_wire(o, True) for o in nd.dmm_objs)
-    r = MODEL.ask(f"match {int(strict)} {int(bool(nd.device.reusable_channels))} | {olds} | {chans} | {dmms}")
+    r = MODEL.ask(f"match {int(strict)} {int(bool(nd.spec.get('reusable', False)))} | {olds} | {chans} | {dmms}")
     if not r.startswith("ok "):
         raise InfraError(f"switch model driver: {r}")
     _, n, lst = r.split(" ", 2)
@@ -736,7 +781,9 @@ def check_device_switch(rs: RealSeq, new_spec: dict, strict: bool, edits: list, 
         res.status = f"skip:bad-variant:{type(e).__name__}"
         return res
     seq = rs.seq
-    same_device = seq.device == nd.device
+    # (decided from the specs, not with the devices' own `==`, which `switch_device` itself uses for its
+    # "same device" shortcut)
+    same_device = _canon_spec(new_spec) == _canon_spec(rs.dev.spec)
     try:
         with warnings.catch_warnings():
             warnings.simplefilter("ignore")
@@ -777,8 +824,9 @@ def check_device_switch(rs: RealSeq, new_spec: dict, strict: bool, edits: list, 
     if cd:
         res.fails.append(F("replay-calls", cd[1], what=cd[0], strict=strict, param=pkey,
                            cause="dmm-renamed" if cd[0] == "channel-name" and cause == "dmm-renamed" else "params"))
-    if new._device != nd.device:
-        res.fails.append(F("replay-device", "the result is not on the new device", strict=strict, param=pkey))
+    if (new is seq and not same_device) or (new is not seq and new._device is not nd.device):
+        res.fails.append(F("replay-device", "the result is the original sequence / is not on the new device"
+                           if new is seq else "the result is not on the new device", strict=strict, param=pkey))
     for (n0, s0), (n1, s1) in zip(seq._schedule.items(), new._schedule.items()):
         c0, c1 = s0.channel_obj, s1.channel_obj
         if type(c0) is not type(c1) or c0.basis != c1.basis or c0.addressing != c1.addressing:
